@@ -1,0 +1,198 @@
+//go:build verif
+
+// Contracts for package fstxn, checked by /verif/govc (comment-only file).
+package fstxn
+
+//@ predicate fsInv(fs *FsState) = fs != nil && superInv(fs.Super) && acceptedSize(dsksize) && fs.Txn != nil && fs.Icache != nil && fs.Lockmap != nil && fs.Balloc != nil && fs.Ialloc != nil && base(fs.Balloc) == theBalloc && base(fs.Ialloc) == theIalloc && theBalloc != theIalloc
+// opInv: the transaction's inode table holds exactly the inodes whose locks this goroutine holds.
+//@ predicate opShape(op *FsTxn) = op != nil && fsInv(op.Fs) && atxnInv(op.Atxn) && op.inodes != nil && op.Atxn.Super == op.Fs.Super
+//@ predicate opTable(op *FsTxn) = forall i uint64 :: held[i] ==> indom(op.inodes, i) && op.inodes[i] != nil && op.inodes[i].Inum == i
+//@ specfunc opInv(op *FsTxn) = opShape(op) && opTable(op)
+// I-alloc (global invariant, assumed where an inode is found live): a live inode's number is marked allocated
+//@ specfunc heldMarked() = forall i uint64 :: held[i] ==> abits[theIalloc][i]
+// opOpen: op is this goroutine's open transaction
+//@ specfunc opOpen(op *FsTxn) = opInv(op) && lastst == 0 && curop == base(op) && listsValid(op.Atxn)
+
+// C01-R6 / C03: one open transaction per goroutine, begun with no lock held.
+//@ spec Begin
+//@   props C01 C03 C06 C09 C11
+//@   requires fsInv(fsstate)
+//@   requires [L2-nolocks] noLocks() @C03 @C06
+//@   requires [R6-notnested] lastst != 0 @C01
+//@   allocates fstxn.FsTxn, alloctxn.AllocTxn, jrnl.Op, []uint64, map[uint64]*inode.Inode
+//@   modifies lastst, curop, freshinum, wroteinum, cphase
+//@   ghostset lastst = 0
+//@   ghostset freshinum = empty
+//@   ghostset wroteinum = empty
+//@   ghostset cphase = 0
+//@   ghostexit curop = base(result)
+//@   ensures fresh(result) && opOpen(result) && result.Fs == fsstate && cphase == 0
+//@   ensures [F5-empty] len(result.Atxn.allocInums) == 0 && len(result.Atxn.freeInums) == 0 && len(result.Atxn.allocBnums) == 0 && len(result.Atxn.freeBnums) == 0 @C05 @C09
+
+//@ spec (*FsTxn).releaseInodes
+//@   assume
+//@   requires opInv(op)
+//@   modifies held, map[uint64]*inode.Inode
+//@   ensures noLocks() && opShape(op)
+
+//@ spec (*FsTxn).invalidateInodes
+//@   assume
+//@   requires opInv(op)
+//@   allocates buf.Buf
+//@   modifies cache.Cslot.Obj, dirtyinum
+//@   ensures forall i uint64 :: old(dirtyinum)[i] && !old(wroteinum)[i] ==> dirtyinum[i]
+//@   ensures forall i uint64 :: old(wroteinum)[i] || !old(dirtyinum)[i] ==> !dirtyinum[i]
+
+// C03-L2: a lock is given up early only by the lookup that took it and found the inode unusable.
+//@ spec (*FsTxn).ReleaseInode
+//@   props C03 C14 C10
+//@   requires opInv(op) && ip != nil
+//@   requires [isheld] held[ip.Inum] @C14
+//@   requires [L2-clean] !dirtyinum[ip.Inum] @C03 @C10
+//@   modifies held, map[uint64]*inode.Inode
+//@   ensures held == store(old(held), ip.Inum, false) && opInv(op)
+
+//@ spec (*FsTxn).LockInode
+//@   props C06 C14 C11
+//@   requires opInv(op)
+//@   requires [D1-order] canLock(inum) @C06
+//@   allocates cache.Cslot
+//@   modifies held
+//@   ensures held == store(old(held), inum, true) && result != nil
+//@   ensures result.Obj.tag == 0 || istype(result.Obj, *inode.Inode)
+//@   ensures result.Obj.tag != 0 ==> ifaceptr(result.Obj, inode.Inode) != nil && ifaceptr(result.Obj, inode.Inode).Inum == inum && inodeInv(ifaceptr(result.Obj, inode.Inode))
+
+//@ spec (*FsTxn).GetInodeLocked
+//@   props C06 C08 C10 C11 C14
+//@   requires opOpen(op) && dirtyInv()
+//@   requires [D1-order] canLock(inum) @C06
+//@   requires [inum-range] inum < 32768 @C11
+//@   allocates cache.Cslot, inode.Inode, []uint64, buf.Buf, marshal.Dec, cell:uint64
+//@   modifies held, cache.Cslot.Obj, map[uint64]*inode.Inode
+//@   ensures held == store(old(held), inum, true) && opInv(op)
+//@   ensures result != nil && result.Inum == inum && inodeInv(result) && !dirtyinum[inum] && dirtyInv()
+
+//@ spec (*FsTxn).GetInodeUnlocked
+//@   props C11 C14
+//@   requires opInv(op)
+//@   requires [owned] held[inum] @C11 @C14
+//@   ensures result != nil && result.Inum == inum
+
+//@ spec (*FsTxn).OwnInum
+//@   props C14
+//@   requires opInv(op)
+//@   assumes [table] result <==> held[inum]
+
+// C08-H1/H5: the only ways from a number or a handle to an inode.
+//@ spec (*FsTxn).GetInodeInum
+//@   props C08 C06 C10 C11 C14
+//@   requires opOpen(op) && dirtyInv()
+//@   requires [D1-order] inum >= 32768 || canLock(inum) @C06
+//@   allocates cache.Cslot, inode.Inode, []uint64, buf.Buf, marshal.Dec, cell:uint64
+//@   modifies held, cache.Cslot.Obj, map[uint64]*inode.Inode
+//@   panic_assumed "getInodeInum"
+//@   ensures [H5-live] result != nil ==> result.Inum == inum && inum < 32768 && result.Kind != 0 && held == store(old(held), inum, true) && inodeInv(result) && !dirtyinum[inum] @C08
+//@   ensures [H5-free] result == nil ==> held == old(held) @C08 @C03
+//@   assumes [I-live-marked] result != nil ==> abits[theIalloc][inum]
+//@   ensures opInv(op) && dirtyInv()
+
+//@ specfunc fhIno(fh3 nfstypes.Nfs_fh3) = ite(len(fh3.Data) >= 16, le64(fh3.Data, 0), 0)
+//@ specfunc fhGen(fh3 nfstypes.Nfs_fh3) = ite(len(fh3.Data) >= 16, le64(fh3.Data, 8), 0)
+//@ spec (*FsTxn).GetInodeFh
+//@   props C08 C06 C10 C11 C14
+//@   requires opOpen(op) && dirtyInv()
+//@   requires [D1-order] fhIno(fh3) >= 32768 || canLock(fhIno(fh3)) @C06
+//@   allocates cache.Cslot, inode.Inode, []uint64, buf.Buf, marshal.Dec, cell:uint64
+//@   modifies held, cache.Cslot.Obj, map[uint64]*inode.Inode
+//@   ensures [H1-validated] result != nil ==> result.Inum == fhIno(fh3) && result.Gen == fhGen(fh3) && result.Kind != 0 && held == store(old(held), fhIno(fh3), true) && inodeInv(result) && !dirtyinum[result.Inum] @C08
+//@   ensures [H1-stale] result == nil ==> held == old(held) @C08 @C03
+//@   ensures [I-live-marked] result != nil ==> abits[theIalloc][result.Inum]
+//@   ensures opInv(op) && dirtyInv()
+
+//@ spec (*FsTxn).AllocInode
+//@   props C08 C05 C06 C10 C11 C04
+//@   requires opOpen(op) && dirtyInv()
+//@   requires [D2-heldmarked] heldMarked() @C06
+//@   preserves [allocInv] allocInv() @C15 @C04
+//@   allocates cache.Cslot, inode.Inode, []uint64, buf.Buf, marshal.Dec, marshal.Enc, cell:uint64, []uint8
+//@   modifies held, cache.Cslot.Obj, map[uint64]*inode.Inode, abits, freshinum, dirtyinum, wroteinum, op.Atxn.allocInums, []uint64@alloctxn.AllocTxn.allocInums, inode.Inode.Kind, inode.Inode.Nlink, inode.Inode.Gen, inode.Inode.Atime, inode.Inode.Mtime, inode.Inode.Inum
+//@   panic_assumed "AllocInode"
+//@   ensures [F6-alloc] result != nil ==> validInum(result.Inum) && held == store(old(held), result.Inum, true) && !old(held)[result.Inum] && inodeInv(result) && !dirtyinum[result.Inum] @C05
+//@   ensures [F6-init] result != nil && !result.IsShrinking() ==> result.Kind == kind && result.Nlink == 1 @C05 @C08
+//@   ensures result == nil ==> held == old(held)
+//@   ensures [inv-op] opInv(op)
+//@   ensures [inv-lists] listsValid(op.Atxn)
+//@   ensures [inv-dirty] dirtyInv()
+//@   ensures [inv-marked] heldMarked()
+
+// C01-R2/R3, C07, C09-A1/A2, C03-L2: ending a transaction.
+// commitWait writes the bitmap bits into the same journal operation (PreCommit),
+// commits it, and only then releases the locks and frees in memory.
+//@ specfunc commitReady(op *FsTxn) = opOpen(op) && cphase == 0 && dirtyInv()
+//@ spec (*FsTxn).commitWait
+//@   props C01 C03 C05 C07 C09 C10 C11
+//@   requires commitReady(op)
+//@   requires [S1-at-commit] forall i uint64 :: held[i] ==> !dirtyinum[i] @C10 @C01
+//@   preserves [allocInv] allocInv() @C15 @C04
+//@   allocates buf.Buf, addr.Addr, []uint8
+//@   modifies held, lastst, cphase, abits, dirtyinum, cache.Cslot.Obj, map[uint64]*inode.Inode
+//@   ghostexit lastst = ite(result, ite(wait, 1, 2), 4)
+//@   ensures [R2-state] (result && wait ==> lastst == 1) && (result && !wait ==> lastst == 2) && (!result ==> lastst == 4) @C01 @C07
+//@   ensures [L2-released] noLocks() @C03 @C06
+//@   ensures [S1-clean] dirtyInv() @C10
+
+//@ spec (*FsTxn).Commit
+//@   props C01 C03 C07 C09 C10
+//@   requires commitReady(op)
+//@   requires [S1-at-commit] forall i uint64 :: held[i] ==> !dirtyinum[i] @C10 @C01
+//@   preserves [allocInv] allocInv() @C15 @C04
+//@   allocates buf.Buf, addr.Addr, []uint8
+//@   modifies held, lastst, cphase, abits, dirtyinum, cache.Cslot.Obj, map[uint64]*inode.Inode
+//@   ensures [R2-stable] (result ==> lastst == 1) && (!result ==> lastst == 4) @C01 @C07
+//@   ensures [L2-released] noLocks() && dirtyInv() @C03 @C06
+
+//@ spec (*FsTxn).CommitData
+//@   props C01 C07
+//@   requires commitReady(op)
+//@   requires [S1-at-commit] forall i uint64 :: held[i] ==> !dirtyinum[i] @C10 @C01
+//@   preserves [allocInv] allocInv() @C15 @C04
+//@   allocates buf.Buf, addr.Addr, []uint8
+//@   modifies held, lastst, cphase, abits, dirtyinum, cache.Cslot.Obj, map[uint64]*inode.Inode
+//@   ensures [R2-stable] (result ==> lastst == 1) && (!result ==> lastst == 4) @C01 @C07
+//@   ensures [L2-released] noLocks() && dirtyInv() @C03 @C06
+
+//@ spec (*FsTxn).CommitUnstable
+//@   props C01 C07
+//@   requires commitReady(op)
+//@   requires [S1-at-commit] forall i uint64 :: held[i] ==> !dirtyinum[i] @C10 @C01
+//@   preserves [allocInv] allocInv() @C15 @C04
+//@   allocates buf.Buf, addr.Addr, []uint8
+//@   modifies held, lastst, cphase, abits, dirtyinum, cache.Cslot.Obj, map[uint64]*inode.Inode
+//@   ensures [W1-unstable] (result ==> lastst == 2) && (!result ==> lastst == 4) @C07
+//@   ensures [L2-released] noLocks() && dirtyInv() @C03 @C06
+
+// COMMIT: the transaction itself has written nothing; everything appended to
+// the log so far is flushed (W3).
+//@ spec (*FsTxn).CommitFh
+//@   props C07 C01 C03
+//@   requires commitReady(op)
+//@   requires [W3-readonly] len(op.Atxn.allocInums) == 0 && len(op.Atxn.freeInums) == 0 && len(op.Atxn.allocBnums) == 0 && len(op.Atxn.freeBnums) == 0 && (forall i uint64 :: held[i] ==> !dirtyinum[i]) @C07
+//@   preserves [allocInv] allocInv() @C15 @C04
+//@   allocates buf.Buf, addr.Addr, []uint8
+//@   modifies held, lastst, cphase, abits, map[uint64]*inode.Inode
+//@   ghostexit lastst = ite(result, 6, 4)
+//@   ensures [W3-flushed] (result ==> lastst == 6) && (!result ==> lastst == 4) @C07
+//@   ensures [L2-released] noLocks() && dirtyInv() @C03 @C06
+
+// A1-A3 (C09): abort drops the cached copy of every inode the transaction
+// wrote, releases the locks and returns the allocations to the allocators.
+//@ spec (*FsTxn).Abort
+//@   props C09 C03 C05 C06 C10
+//@   requires opOpen(op) && dirtyInv()
+//@   requires [A2-rollback] forall i uint64 :: dirtyinum[i] ==> wroteinum[i] @C09 @C10
+//@   preserves [allocInv] allocInv() @C15 @C04
+//@   allocates buf.Buf
+//@   modifies held, lastst, abits, dirtyinum, cache.Cslot.Obj, map[uint64]*inode.Inode
+//@   ghostexit lastst = 3
+//@   ensures [A1-aborted] lastst == 3 @C09
+//@   ensures [L2-released] noLocks() && dirtyInv() @C03 @C06
